@@ -2,12 +2,14 @@
    Only ExtrOcamlBasic is used (bool, option, unit, list, prod, sumbool, sumor -> OCaml natives);
    Z, positive, N, nat stay extracted inductives; no Extract Constant / Extract Inductive of ours. *)
 From Coq Require Import ExtrOcamlBasic.
-From Sakura.Model Require Import Base Cursor Length Event Writer.
-From Sakura.Spec Require Import LenSpec SmfSpec TrackSpec.
+From Sakura.Model Require Import Base Cursor Length Event Writer Song Token LexCore RunCore Compile.
+From Sakura.Spec Require Import LenSpec SmfSpec TrackSpec NoteSem.
 Extraction Language OCaml.
 Extraction "../ocaml/core_model.ml"
   Cursor.get_int Cursor.get_note_length
   Length.calc_length
+  NoteSem.pprog NoteSem.denote_prog
+  Compile.compile Compile.run_source LexCore.lex Compile.play_from
   Writer.generate Writer.generate_track Writer.normalize_and_sort Writer.push_delta Event.ev_sysex
   SmfSpec.vlq_decode SmfSpec.decode_track SmfSpec.parse_file SmfSpec.container_ok
   TrackSpec.wire TrackSpec.event_ok TrackSpec.deltas_ok TrackSpec.EOTmsg TrackSpec.abs_ticks
